@@ -855,6 +855,10 @@ func hostileMessage(m rpccp.Message, f []string) {
 		t, _ := d.NewTarget()
 		t.SetImportedCap(0)
 		d.Context().SetProvide(uint32(arg(1)))
+	case "nullptr": // the union says call / return / finish / …, the member's pointer is null
+		m.NewBootstrap()
+		m.Struct.SetPtr(0, capnp.Ptr{})
+		m.Struct.SetUint16(0, uint16(arg(1)))
 	case "abort":
 		a, _ := m.NewAbort()
 		a.SetReason("peer abort")
@@ -1854,7 +1858,7 @@ func mixedScript(r *lib.Rng, n int, hostile, faults bool) string {
 		case t < 39:
 			if hostile {
 				add(r.PickS("pHwhich:1", "pHcalltgt:"+strconv.Itoa(nextQ), "pHcallnoparams:"+strconv.Itoa(nextQ), "pHcallyourself:"+strconv.Itoa(nextQ),
-					"pHcallop:"+strconv.Itoa(nextQ)+":0", "pHretwhich:Q0", "pHrettake:Q0:1", "pHdisprovide:1", "pHabort", "pHempty",
+					"pHcallop:"+strconv.Itoa(nextQ)+":0", "pHretwhich:Q0", "pHnullptr:"+strconv.Itoa(r.Intn(14)), "pHnullptr:"+strconv.Itoa(r.Pick(2, 3, 4, 5, 8, 13)), "pHrettake:Q0:1", "pHdisprovide:1", "pHabort", "pHempty",
 					"pHcorrupt:"+strconv.Itoa(r.Intn(40))+":"+strconv.Itoa(r.Intn(20))+":pC"+strconv.Itoa(nextQ)+"/eX0/0/s1+s2",
 					"pHcorrupt:"+strconv.Itoa(r.Intn(40))+":"+strconv.Itoa(r.Intn(20))+":pRQ0/ok/s1",
 					"pHcorrupt:"+strconv.Itoa(r.Intn(30))+":"+strconv.Itoa(r.Intn(20))+":pC"+strconv.Itoa(nextQ)+"/a0.0/2",
